@@ -206,7 +206,8 @@ def restoreDefs (keep : List Nat) (s : St) (D : List Nat) : St :=
 def enter (s : St) (objs : List Nat) : St :=
   backUpDefs (objs.foldl backUpObj s) (allDefs s objs)
 
-/-- `StateRetainer.__exit__` -/
+/-- `StateRetainer.__exit__(*args)`: the same restore whatever the reason for leaving the with-block (normal end or
+an exception, which then propagates to the caller) -/
 def exit (s : St) (objs keep : List Nat) : St :=
   restoreDefs keep (objs.foldl (restoreObj keep) s) (allDefs s objs)
 
